@@ -243,6 +243,17 @@ def small_record(fmt, width, idx):
 # ---------------------------------------------------------------------------------------
 
 _INFO_IDS = ["DP", "DP2", "AF", "AFX", "DB", "D", "AN", "NS", "STR", "H2"]
+def related_info_decl(draw, decl):
+    """The same INFO keys and types in the same order, with the Number of some keys changed between scalar and list."""
+    out = []
+    for key, number, typ in decl:
+        if typ != "Flag" and draw(st.booleans()):
+            scalar = number.isdigit() and int(number) <= 1
+            number = draw(st.sampled_from(["A", ".", "2"])) if scalar else "1"
+        out.append([key, number, typ])
+    return out
+
+
 _INFO_KINDS = [("1", "Integer"), ("A", "Integer"), (".", "Integer"), ("2", "Integer"),
                ("1", "Float"), ("A", "Float"), (".", "Float"),
                ("0", "Flag"), ("1", "String"), (".", "String")]
@@ -263,12 +274,15 @@ def _info_value(number, typ):
 
 
 @st.composite
-def vcf_case(draw, fmt="vcf", max_records=8, typed=None):
-    typed = draw(st.booleans()) if typed is None else typed
-    decl = []
-    if typed:
+def vcf_case(draw, fmt="vcf", max_records=8, typed=None, decl=None):
+    typed = (draw(st.booleans()) if typed is None else typed) or decl is not None
+    if decl is not None:
+        decl = [list(d) for d in decl]
+    elif typed:
         ids = draw(st.lists(st.sampled_from(_INFO_IDS), min_size=1, max_size=5, unique=True))
         decl = [[i] + list(draw(st.sampled_from(_INFO_KINDS))) for i in ids]
+    else:
+        decl = []
     geno = fmt in ("vcf2", "vcfm", "vcfpm", "vcfph")
     n_samples = draw(st.integers(1, 4)) if geno else 0
     samples = [draw(ident(1, 8)) for _ in range(n_samples)]
